@@ -224,8 +224,15 @@ impl<'a> Checker<'a> {
                     self.viol("C03/pointer-size", format!("file {}: pointer size {} for {} bytes", f.label, f.pointer_size, len), scn, si);
                 }
                 let key = (f.salt, fp(&f.bytes));
-                self.out.facts.insert(format!("ptr|{}|{}|{}|{}", f.salt, key.1, f.pointer_hash, f.pointer_size));
+                // the chunk size constants are part of the hash definition: compare only within one target size
+                self.out.facts.insert(format!("ptr|{}@t{}|{}|{}|{}", f.salt, target, key.1, f.pointer_hash, f.pointer_size));
                 let here = json!({"cfg": self.lab.cfg.to_json(), "scenario": scn.to_json(), "session": si, "file": f.label});
+                if !self.seen_ptr.contains_key(&key) || self.seen_ptr.get(&key).map(|x| x.0 != f.pointer_hash).unwrap_or(false) {
+                    // context of the first sighting of this (content, pointer) in this worker, for cross-process replays
+                    let mut short = scn.clone();
+                    short.sessions.truncate(si + 1);
+                    self.out.facts.insert(format!("ptrctx|{}@t{}|{}|{}|{}", f.salt, target, key.1, f.pointer_hash, json!({"cfg": self.lab.cfg.to_json(), "scenario": short.to_json()})));
+                }
                 match self.seen_ptr.get(&key) {
                     None => {
                         self.seen_ptr.insert(key.clone(), (f.pointer_hash.clone(), f.pointer_size, here));
